@@ -44,6 +44,8 @@ def construct_model(ex, p, qual, kwargs, node):
     fields = ex.repo.class_fields(qual)
     validators = ex.repo.class_validators(qual)
     names = {f["name"] for f in fields}
+    aliases = {f["alias"].value: f["name"] for f in fields if isinstance(f["alias"], ast.Constant)}
+    kwargs = {aliases.get(k, k): v for k, v in kwargs.items()}
     for k in kwargs:
         if k not in names:
             h = ex.handlers.get("extra-field:" + qual)
